@@ -22,13 +22,43 @@ class SymbolicBranch(Exception):
 
 
 class Lin:
-    """exact linear form  const + sum coef[v] * v  over outcome-count symbols"""
-    __slots__ = ("c", "k")
+    """exact linear form  const + sum coef[v] * v  over outcome-count symbols.  Immutable; sums are kept as a lazy tree (O(1) per operation) and
+    normalised once, when the form is compared."""
+    __slots__ = ("_c", "_k", "_terms")
     __array_priority__ = 1000
 
-    def __init__(self, coefs=None, const=0):
-        self.c = {v: Fraction(x) for v, x in (coefs or {}).items() if x != 0}
-        self.k = Fraction(const)
+    def __init__(self, coefs=None, const=0, _terms=None):
+        if _terms is not None:
+            self._terms, self._c, self._k = _terms, None, None
+        else:
+            self._terms = None
+            self._c = {v: x for v, x in (coefs or {}).items() if x != 0}
+            self._k = const
+
+    def _normal(self):
+        if self._c is None:
+            acc, k = {}, 0
+            stack = [(1, self)]
+            while stack:
+                f, node = stack.pop()
+                if node._terms is None or node._c is not None:
+                    for v, x in node._c.items():
+                        acc[v] = acc.get(v, 0) + f * x
+                    k += f * node._k
+                else:
+                    for g, child in node._terms:
+                        stack.append((f * g, child))
+            self._c = {v: x for v, x in acc.items() if x != 0}
+            self._k = k
+        return self
+
+    @property
+    def c(self):
+        return self._normal()._c
+
+    @property
+    def k(self):
+        return self._normal()._k
 
     @staticmethod
     def sym(name):
@@ -45,26 +75,22 @@ class Lin:
         raise TypeError(f"Lin.of({type(v).__name__})")
 
     def __add__(self, o):
-        o = Lin.of(o)
-        d = dict(self.c)
-        for v, x in o.c.items():
-            d[v] = d.get(v, 0) + x
-        return Lin(d, self.k + o.k)
+        return Lin(_terms=((1, self), (1, Lin.of(o))))
     __radd__ = __add__
 
     def __neg__(self):
-        return Lin({v: -x for v, x in self.c.items()}, -self.k)
+        return Lin(_terms=((-1, self),))
 
     def __sub__(self, o):
-        return self + (-Lin.of(o))
+        return Lin(_terms=((1, self), (-1, Lin.of(o))))
 
     def __rsub__(self, o):
-        return Lin.of(o) + (-self)
+        return Lin(_terms=((1, Lin.of(o)), (-1, self)))
 
     def __mul__(self, o):
         if isinstance(o, (int, Fraction, np.integer)) or (isinstance(o, float) and o == int(o)):
-            f = Fraction(int(o)) if not isinstance(o, Fraction) else o
-            return Lin({v: x * f for v, x in self.c.items()}, self.k * f)
+            f = int(o) if not isinstance(o, Fraction) else o
+            return Lin(_terms=((f, self),))
         return NotImplemented
     __rmul__ = __mul__
 
